@@ -1691,6 +1691,9 @@ func init() {
 			"((draw a (i 0 1000)) (draw b (i 0 1000)) (if (ge a 700) (rtpanic 1)) (if (ge b 300) (rtpanic 2)))",
 			"((draw a (distinct (i 0 50) 0 8 (id))) (if (lenge a 4) (failnow 1)) (if (lenge a 2) (failnow 2)))",
 			"((draw a (i 0 1000)) (draw b (slice (bool) 0 5)) (if (ge a 500) (failnow 3)) (if (lenge b 2) (failnow 4)))",
+			// chained filters: a rejected attempt of the inner filter begins where the rejected attempt of the outer one begins
+			"((draw a (filter (filter (u 0 1000) (mod 3 0)) (ge 400))) (draw b (u 0 1000)) (if (mod b 2 1) (fatal 2)) (if (ge a 700) (fatal 1)))",
+			"((draw a (filter (filter (filter (i 0 99) (mod 2 0)) (ge 30)) (lt 90))) (draw b (i 0 99)) (draw c (bool)) (if (ge b 50) (fatal 1)) (if (lt b 50) (if (ge a 60) (fatal 2))))",
 			// a failure inside an action of Repeat, right after its last draw: the group of the failing step is still
 			// open, its coin lies between finished groups, and the last group ends at the end of the data
 			"((draw a (u 0 255)) (repeat (act (draw x (u 0 255)) (if (ge a 5) (if (ge x 7) (fatal 1))))))",
@@ -2230,11 +2233,20 @@ func init() {
 				// a long bitstream: the minimized test case has thousands of words (a fail file of many KB)
 				src = "((draw a (slice (u 0 18446744073709551615) 700 700)) (draw b (i -9223372036854775808 9223372036854775807)) (if (ge b 1000) (fatal 1)))"
 			}
+			seed1 := r.u64() | 1
+			if i%6 == 2 {
+				// a base seed just below 2^64 and a property whose first failing test case is the one whose seed wraps
+				// around to 0: a failure like any other
+				if wsrc, wseed, ok := c06WrapCase(); ok {
+					src, seed1 = wsrc, wseed
+					m.tag("failing-case-has-seed-0")
+				}
+			}
 			prog := mustSX(src)
 			dir, _ := os.MkdirTemp(tmp, "c06-")
 			fl := baseFlags()
 			fl.Nofailfile = false
-			fl.Seed = r.u64() | 1
+			fl.Seed = seed1
 			fl.ShrinkTime = []time.Duration{0, 30 * time.Second}[r.intn(2)]
 			if strings.Contains(src, "700 700") {
 				fl.ShrinkTime = 0 // the pruned original: long enough, and no minutes of minimization
@@ -2547,6 +2559,51 @@ func init() {
 			os.RemoveAll(clean)
 		}
 	}
+}
+
+// c06WrapCase looks for a threshold property and a base seed 2^64-k such that the test cases with the seeds
+// 2^64-k … 2^64-1 pass and the next one — seed 0 after the wrap-around — fails
+func c06WrapCase() (src string, base uint64, ok bool) {
+	// the value the first draw yields under a given seed
+	valueAt := func(seed uint64) (v uint64, ok bool) {
+		defer func() {
+			if recover() != nil {
+				ok = false
+			}
+		}()
+		g := newInterp(L(), false).b.gen(mustSX("(u 0 18446744073709551615)"))
+		t := rapid.VerifNewT(newRecTB("wrap"), rapid.VerifRandStream(seed, false), false)
+		switch x := rapid.VerifValue(g, t).(type) {
+		case uint64:
+			return x, true
+		case int64:
+			return uint64(x), x >= 0
+		}
+		return 0, false
+	}
+	// base 2^64-1: the first test case has the seed 2^64-1, the second one the seed 0
+	b0, ok0 := valueAt(0)
+	bm, okm := valueAt(^uint64(0))
+	if !ok0 || !okm || b0 == bm {
+		return "", 0, false
+	}
+	if bm < b0 {
+		src = fmt.Sprintf("((draw b (u 0 18446744073709551615)) (if (ge b %d) (fatal 1)))", b0)
+	} else {
+		src = fmt.Sprintf("((draw b (u 0 18446744073709551615)) (if (lt b %d) (fatal 1)))", bm)
+	}
+	// confirm with the real findBug: the failing test case is the one with the seed 0
+	var sd uint64
+	var e rapid.VerifErr
+	prog := mustSX(src)
+	withFlags(baseFlags(), func() {
+		in := newInterp(prog, false)
+		runTB(func() { _, _, _, sd, e = rapid.VerifFindBug(newRecTB("wrap"), farDeadline(), 20, ^uint64(0), in.prop) })
+	})
+	if e.IsNil() || e.Kind() == "invalid" || sd != 0 {
+		return "", 0, false
+	}
+	return src, ^uint64(0), true
 }
 
 func randomDraws(run *tbRun) string {
